@@ -24,6 +24,7 @@ type Case struct {
 	Scale    int              `json:"scale,omitempty"`
 	Variant  int              `json:"variant,omitempty"`    // non-period parameters scaled by variantFactor[Variant]
 	Procs    int              `json:"gomaxprocs,omitempty"` // GOMAXPROCS of the process that found it (replay sets it again)
+	Local    int              `json:"local_zone_hours,omitempty"` // the process's local time zone during the case (UTC+h); 0 = UTC
 	Pause    int              `json:"pause,omitempty"`      // seconds of simulated time the harness's consumers let pass before their 2nd, 5th and 11th receive and its producers before their 3rd and 7th send
 	Lens     []int            `json:"lens,omitempty"`
 	Shape    int              `json:"shape,omitempty"`
@@ -56,6 +57,7 @@ type SubSpec struct {
 	Scale  int       `json:"scale,omitempty"`
 	Subs   []SubSpec `json:"subs,omitempty"`
 	Pct    float64   `json:"pct,omitempty"`
+	Same   bool      `json:"same_instance,omitempty"` // this member is the very instance of the member before it
 }
 
 // CallSpec is one Compute/Report call on a shared instance (C09).
@@ -288,7 +290,8 @@ type ReplayFile struct {
 	Case      *Case     `json:"case"`
 	Original  *Case     `json:"original_case,omitempty"`
 	Note      string    `json:"note"`
-	History   []*Case   `json:"history,omitempty"` // C09 process-history part: calls that ran earlier in the process
+	History   []*Case   `json:"history,omitempty"`         // C09 process-history part: calls that ran earlier in the process
+	ProcsPair []int     `json:"gomaxprocs_pair,omitempty"` // C03 OS-threads part: the two GOMAXPROCS values that disagree
 }
 
 var raceMode = os.Getenv("VRACE") != ""
@@ -325,6 +328,9 @@ func workerMain() int {
 		c.Prop = prop
 		c.Seed = seed
 		c.Procs = runtime.GOMAXPROCS(0)
+		if localZoned[prop] && !freeRunning && rng.Intn(8) == 0 {
+			c.Local = []int{-8, -5, 9, 13}[rng.Intn(4)] // the machine is not set to UTC; the data still is
+		}
 		if pausable[prop] && rng.Intn(12) == 0 {
 			c.Pause = []int{7, 61, 3600}[rng.Intn(3)] // a slow consumer: nothing in the library may depend on how soon a value is taken
 		}
@@ -420,6 +426,13 @@ func reportViolation(ck Check, c *Case, v Violation, dir string, st *Stats) Viol
 				cur, curV, improved = cand, w, true
 				break
 			}
+		}
+	}
+	if cur.Local != 0 {
+		cand := *cur
+		cand.Local = 0
+		if w, ok := same(&cand); ok {
+			cur, curV = &cand, w
 		}
 	}
 	if cur.Pause > 0 {
@@ -524,6 +537,9 @@ func replayMain() int {
 	if len(rf.History) > 0 {
 		return historyReplayMain(&rf, path)
 	}
+	if len(rf.ProcsPair) == 2 {
+		return procsReplayMain(&rf, path)
+	}
 	if rf.Case.Procs > 0 {
 		runtime.GOMAXPROCS(rf.Case.Procs)
 	}
@@ -565,6 +581,10 @@ func envInt(k string, d int) int {
 
 // pausable: the checks whose consumers may be slow on the simulated clock (C12 and C13 have
 // oracles stated in simulated time and dates).
+// localZoned: the checks whose cases may run with a local time zone other than UTC (dates written
+// to and read from files and databases are whole UTC days; nothing may reinterpret them locally).
+var localZoned = map[string]bool{"C10": true, "C11": true, "C12": true}
+
 var pausable = map[string]bool{"C02": true, "C03": true, "C04": true, "C05": true, "C09": true, "C10": true, "C11": true, "C14": true, "C16": true, "C19": true}
 
 var (
@@ -573,6 +593,12 @@ var (
 
 // runCase runs one case with its consumer pacing installed.
 func runCase(ck Check, c *Case, st *Stats) []Violation {
+	if c.Local != 0 && !freeRunning {
+		old := time.Local
+		time.Local = time.FixedZone(fmt.Sprintf("UTC%+d", c.Local), c.Local*3600)
+		defer func() { time.Local = old }()
+		st.Faults["process-local-zone-not-UTC"]++
+	}
 	consPause = time.Duration(c.Pause) * time.Second
 	defer func() { consPause = 0 }()
 	if c.Pause > 0 {
